@@ -462,7 +462,7 @@ pub fn crash_plan(prop: &str, tier: &str) -> Plan {
         .flat_map(|(h, t, b)| {
             // every traced operation twice: with the background tasks of the sync pipeline running
             // as they come, and with each of them held back until somebody waits for it
-            [false, true].map(|lazy| json!({"mode": mode, "hist": h, "target": t, "bound": b, "lazy": lazy, "cap": if thorough { 8 } else { 5 }, "nested": true, "max_per_instant": if thorough { 96 } else { 40 }}))
+            [false, true].map(|lazy| json!({"mode": mode, "hist": h, "target": t, "bound": b, "lazy": lazy, "cap": if thorough { 8 } else { 5 }, "nested": thorough || !lazy, "max_per_instant": if thorough { 96 } else { 40 }}))
         })
         .collect();
     sort_by_bound(&mut cases);
